@@ -40,17 +40,6 @@ import (
 	"verif/harness/vlib"
 )
 
-const (
-	findSvcTie   = "C17-K6-svc-tie"
-	findPickBest = "C17-pickbest-tie"
-	// BuildSidecarVirtualHostWrapper ranges over the service map; a domain shared by several services (the address
-	// of a multi-host ServiceEntry) is given to whichever virtual host is built first
-	findSharedVIP = "C17-vhost-shared-domain"
-	// K10 as it really bites: buildSidecarVirtualHostsForVirtualService ranges over serviceByPort (a map), so for the
-	// HTTP_PROXY route (listenerPort 0) the portless domains of a host go to the virtual host of whichever port comes
-	// first, and mergeAllVirtualHosts then drops them unless that port is 80
-	findHTTPProxy = "C17-K10-httpproxy-port-order"
-)
 
 // ---------------------------------------------------------------- pools
 
@@ -166,15 +155,15 @@ func tagOf(s *model.Service) int {
 }
 
 func svcKey(rule int, s Svc) string {
-	k := s.T.z() + "|" + s.Name + "|" + s.Ns
-	if rule == 1 {
-		k += "|" + s.Obj
+	k := s.T.z() + "|" + s.Name + "|" + s.Ns + "|" + s.Obj
+	if rule == 0 {
+		k += "|" + s.Host
 	}
 	return k
 }
 
-// genSvcList: mode 0 = keys unique; mode 1 = contains ServiceEntry-shaped duplicates of one
-// (namespace, host, second) — the reachable tie of K6.
+// genSvcList: keys unique; mode 1 additionally contains ServiceEntry-shaped duplicates of one
+// (namespace, host, second) that differ only in ObjectName — the shape of the repaired finding C17-K6-svc-tie.
 func genSvcList(r *vlib.Rand, rule, mode int) []Svc {
 	n := 2 + r.Intn(7)
 	var l []Svc
@@ -272,9 +261,6 @@ func genSortSvc(c *vlib.Collector, id *int, r *vlib.Rand, n int) {
 		out := tags(realSortSvc(rule, reals))
 		out2 := tags(realSortSvc(rule, permute(reals, p)))
 		tg := []string{"sortsvc", fmt.Sprintf("sortsvc-rule%d", rule), fmt.Sprintf("sortsvc-mode%d", mode)}
-		if mode == 1 {
-			c.FindingOf[*id] = findSvcTie
-		}
 		c.Add(vlib.Case{ID: *id, Tags: tg,
 			Term:   vlib.App("SortSvc", vlib.NI(*id), vlib.NI(rule), vlib.ListOf(l, Svc.term), natList(p), nList(out), nList(out2)),
 			Sample: map[string]any{"kind": "SortSvc", "rule": rule, "services": l, "perm": p, "out": out, "out_permuted": out2}})
@@ -310,6 +296,9 @@ func genCmpSvc(c *vlib.Collector, id *int, r *vlib.Rand, n int) {
 		mk := func(tag int) Svc {
 			s := Svc{Tag: tag, T: genTime(rr), Name: vlib.Pick(rr, namePool[:5]), Ns: vlib.Pick(rr, nsPool[:3]), Obj: vlib.Pick(rr, namePool[:3]), Kube: rr.Bool()}
 			s.Host = s.Name + ".x"
+			if rr.Chance(40) {
+				s.Host = vlib.Pick(rr, hostPool[:3])
+			}
 			return s
 		}
 		a, b, cc := mk(1), mk(2), mk(3)
@@ -323,6 +312,12 @@ func genCmpSvc(c *vlib.Collector, id *int, r *vlib.Rand, n int) {
 			if rr.Chance(60) {
 				b.Ns = a.Ns
 			}
+			if rr.Chance(60) {
+				b.Obj = a.Obj
+			}
+			if rr.Chance(60) {
+				b.Host = a.Host
+			}
 		}
 		if rr.Chance(50) {
 			cc.T = b.T
@@ -331,6 +326,12 @@ func genCmpSvc(c *vlib.Collector, id *int, r *vlib.Rand, n int) {
 			}
 			if rr.Chance(60) {
 				cc.Ns = b.Ns
+			}
+			if rr.Chance(60) {
+				cc.Obj = b.Obj
+			}
+			if rr.Chance(60) {
+				cc.Host = b.Host
 			}
 		}
 		ra, rb, rc, ra2 := a.real(), b.real(), cc.real(), a.real()
@@ -662,9 +663,6 @@ func genHostIdx(c *vlib.Collector, id *int, r *vlib.Rand, n int) {
 			c.Violate(vlib.Violation{ID: *id, Kind: "panic", Detail: msg, Case: l})
 			continue
 		}
-		if mode == 1 {
-			c.FindingOf[*id] = findSvcTie
-		}
 		multi := len(obs) < len(l)
 		tg := []string{"hostidx", fmt.Sprintf("hostidx-mode%d", mode)}
 		if multi {
@@ -800,7 +798,8 @@ func genPickNs(t *testing.T, c *vlib.Collector, id *int, r *vlib.Rand, n int) {
 			obs = append(obs, s)
 		}
 		sort.Strings(obs)
-		// is this an instance of the known tie: >= 2 visible non-kube services sharing the minimal time and no visible kube service
+		// the shape of the repaired finding C17-pickbest-tie: >= 2 visible non-kube services share the minimal time
+		tieShape := false
 		if best {
 			minCnt, kubeVis := 0, false
 			var min *big.Int
@@ -819,12 +818,10 @@ func genPickNs(t *testing.T, c *vlib.Collector, id *int, r *vlib.Rand, n int) {
 					minCnt++
 				}
 			}
-			if minCnt >= 2 && !kubeVis {
-				c.FindingOf[*id] = findPickBest
-			}
+			tieShape = minCnt >= 2 && !kubeVis
 		}
 		tg := []string{"pickns", fmt.Sprintf("pickns-best-%v", best)}
-		if _, ok := c.FindingOf[*id]; ok {
+		if tieShape {
 			tg = append(tg, "pickns-tie")
 		}
 		if len(obs) > 1 {
@@ -952,7 +949,7 @@ func TestGen(t *testing.T) {
 		"grouping run on generated lists AND a permutation of them (small pools so that ties on every key prefix are common; " +
 		"zero times, sub-second times, three time zones; lists beyond pdqsort's insertion cutoff), comparator sign laws on triples; " +
 		"layer (b) EXPLORATION: digests of every CDS/LDS/RDS/EDS resource of sidecar and router proxies on the fake discovery " +
-		"server for repeated generation and for permuted insertion orders of the same objects. non-trivial = ties or contended " +
+		"server for repeated generation and for permuted insertion orders of the same objects (world shapes: clean, k6 = same-namespace same-host same-second ServiceEntries, pickbest, sharedvip, httpproxy — the shapes of the repaired findings, untagged). non-trivial = ties or contended " +
 		"hosts or >= 2 ports/namespaces/localities"
 	features.SidecarPickBestServiceNamespace = true
 	r := vlib.NewRand(vlib.Seed())
